@@ -321,6 +321,29 @@ class Summaries:
             self._pure_why[key] = why
         return ok
 
+    def canon_pred(self, key, depth=0):
+        """follow forwarding wrappers (single tail call passing the own parameters in order) so that
+        `<HighRateEncoder<E> as RateEncoder<E>>::validate` and `<HighRate<E> as Rate<E>>::validate` are one predicate"""
+        if depth > 5:
+            return key
+        inst = self.inst(key)
+        fn = inst.fn
+        if fn is None:
+            return key
+        body = fn.body
+        calls = [(b, t) for b, t in body.calls() if inst.callee(b).get('local')]
+        if len(calls) != 1:
+            return key
+        b, t = calls[0]
+        if not (t['dest']['l'] == 0 and not t['dest']['p']):
+            return key
+        if [body.canon_op(a) for a in t['args']] != [('param', n) for n in fn.param_names()]:
+            return key
+        ck = inst.callee_key(b)
+        if not ck or ck == key:
+            return key
+        return self.canon_pred(ck, depth + 1)
+
     # ------------------------------------------------------------------ M5
     def fail_sources(self, key, stack=()):
         """set of leaves: ('pred', pred_key, args(tuple of canon over this instance's params))
@@ -375,7 +398,7 @@ class Summaries:
         if callee.fn is None:
             return {('opaque', ck)}
         if self.pure(ck):
-            return {('pred', ck, args)}
+            return {('pred', self.canon_pred(ck), args)}
         pn = callee.fn.param_names()
         sub = {}
         for i, n in enumerate(pn):
